@@ -1696,8 +1696,23 @@ where
           }
         }
       }
-      // Validate that the CBOR value matches the target type before applying control operators
-      if is_ident_string_data_type(self.state.cddl, target_ident)
+      // Validate that the CBOR value matches the target type before applying control operators.
+      // A target that names a type choice of the document is checked by visiting
+      // it: the kind predicates below chase aliases with "some alternative is
+      // of this kind" semantics and would reject a value that matches another
+      // alternative of the named choice (`tc = tstr / nil`, `tc .and tstr`)
+      if type_choice_types_from_ident(self.state.cddl, target_ident)
+        .iter()
+        .map(|t| t.type_choices.len())
+        .sum::<usize>()
+        > 1
+      {
+        let error_count = self.errors.len();
+        self.visit_type2(target)?;
+        if self.errors.len() != error_count {
+          return Ok(());
+        }
+      } else if is_ident_string_data_type(self.state.cddl, target_ident)
         && !matches!(self.cbor, Value::Text(_))
       {
         self.add_error(format!("expected type tstr, got {:?}", self.cbor));
